@@ -226,6 +226,9 @@ impl AffTree<2> {
             && forall|h0: Map<usize, nat>, h1: Map<usize, nat>, x: V| #![trigger tree_fn(old(self).a(), h0, old(self).tree.root.unwrap(), x), tree_fn(final(self).a(), h1, old(self).tree.root.unwrap(), x)]
                 ranked_down(old(self).a(), h0) && ranked_down(final(self).a(), h1) && !blamed_path(old(self).a(), h0, old(self).tree.root.unwrap(), b, x)
                     ==> tree_fn(final(self).a(), h1, old(self).tree.root.unwrap(), x) == tree_fn(old(self).a(), h0, old(self).tree.root.unwrap(), x),
+        // C06 (idempotence): on a tree in which every node below the root already carries a verdict - e.g. the result of a run without LP errors -
+        // the elimination changes nothing at all (no LP call is made, no state is written, nothing is removed)
+        all_decided(old(self).a(), old(self).tree.root.unwrap()) ==> final(self).a() == old(self).a(),
         // COROLLARY - C03 for infeasible_elimination reduced to the soundness of the LP layer: if every Infeasible LP answer is right and no input reaches
         // a node cached infeasible at entry, the function is unchanged for EVERY input of the tree's dimension
         lp_sound(old(self).in_dim) && entry_marks_sound(old(self).a(), old(self).tree.root.unwrap()) ==>
@@ -267,6 +270,7 @@ impl AffTree<2> {
                 wf_at(a0, Some(root)), aff_shape_ok(a0, self.in_dim), kids_ok(a0), parents_ok(a0), reg_inv(a0, self.a(), g_stack, vis), top_agrees(self.a(), a0, g_stack),
                 path.len() > 0 ==> path[0] == root,
                 regions_ok(a0, hs, root, vp, self.in_dim),
+                all_decided(a0, root) ==> self.a() == a0 && to_remove@.len() == 0,
             decreases d0.len() - vis.len()
 //@hint loop 1 start
             let ghost s0 = g_stack;
@@ -384,6 +388,7 @@ impl AffTree<2> {
                 forall|j: int| 0 <= j < to_remove@.len() ==> (#[trigger] to_remove@[j]).0 < 2,
                 ranked_down(a0, hs), dec_one_row(a0), sem_inv(a0, hs, self.a(), root, b), blame_ok(a0, b, vp), tr_ok(self.a(), to_remove@, vis),
                 regions_ok(a0, hs, root, vp, self.in_dim), wf_at(a0, Some(root)),
+                all_decided(a0, root) ==> self.a() == a0 && to_remove@.len() == 0,
             decreases to_remove@.len() - __j
 //@hint loop 2 after
         proof {
